@@ -62,7 +62,7 @@ def run(ctx):
   ctx.expect("R-C12-TEMPLATE", 3, "border test, default set, validation")
   ctx.expect("R-C12-LADDER", 3, "loop condition, guard agreement, matrix shape")
   ctx.expect("R-C12-PURE", 56, "every function of the five modules behind the statistical tests")
-  ctx.expect("R-C12-FORMULA", 20, "statistic formulas of ten tests")
+  ctx.expect("R-C12-FORMULA", 17, "statistic formulas of ten tests, compared at their sinks")
   ctx.expect("R-C12-TABLES", 60, "17 longest-run + 6 + 33 rank + universal + 11 min_n + 14 linear complexity + 3 excursions")
   ctx.expect("R-C12-MINSIZE", 9, "nine InsufficientDataError guards")
   ctx.expect("R-C12-CUSUM", 2, "two extrema")
@@ -792,74 +792,131 @@ def rule_formula(ctx):
     if dflt and kv != sym.mk("len", count) - 1:
       ctx.violation(R, f.where, "default degrees of freedom", "k defaults to %r, expected len(count) - 1" % (kv,))
     cmp_terms(ctx, R, f.where, "p = igamc(k/2, sum (c - n p)^2/(n p) / 2)%s" % (" [k default]" if dflt else ""), as_poly(e.data["value"]), want, "chi-square")
-  # ---- NonOverlappingTemplateMatchingImpl: mean and variance
+  # The remaining statistics are compared at their *sinks* (the p-value that is appended / returned), where the walker has inlined every
+  # intermediate value: local names, temporaries and statement order do not matter.  Opaque loop-carried lists are taken from the sink itself.
+  def sinks(w, label=None):
+    """(label parts, p-value Poly, event) for every `<list>.append((label, p))`."""
+    out = []
+    seen = set()
+    for e in w.events:
+      if e.kind == "mutate" and e.data["method"] == "append" and e.data["args"] and isinstance(e.data["args"][0], Seq) and len(e.data["args"][0].items) == 2:
+        lab, pv = e.data["args"][0].items
+        if isinstance(pv, (Seq, Const, tuple)) or id(e.node) in seen:
+          continue
+        if label is not None and label not in repr(lab):
+          continue
+        seen.add(id(e.node))
+        out.append((lab, as_poly(pv), e))
+    return out
+
+  def indexed_syms(p):
+    """Opaque symbols that are subscripted somewhere in p."""
+    out = []
+    for a in p.all_atoms():
+      if a.kind == "idx" and as_poly(a.args[0]).as_atom() is not None and as_poly(a.args[0]).as_atom().kind == "sym":
+        if as_poly(a.args[0]) not in out:
+          out.append(as_poly(a.args[0]))
+    return out
+
+  def label_value(lab, skip=0):
+    """The (skip+1)-th non-literal component of an f-string label."""
+    a = as_poly(lab).as_atom() if not isinstance(lab, (Seq, Const, tuple)) else None
+    vals = [x for x in (a.args if a is not None and a.kind == "fstr" else []) if not (as_poly(x).as_atom() is not None and as_poly(x).as_atom().kind == "lit")]
+    return as_poly(vals[skip]) if len(vals) > skip else None
+
+  # ---- NonOverlappingTemplateMatchingImpl: p = igamc(N/2, sum_blocks (W - mean)^2 / variance / 2)
   f = repo.func(MOD, "NonOverlappingTemplateMatchingImpl")
   w = sym.Walker(repo, f)
   w.run()
   m = P("param", "m")
+  blocks = P("param", "blocks")
   two_m = sym.mk("pow", _c(2), m)
-  e = last_assign(w, "mean")
-  cmp_terms(ctx, R, f.where, "mean = (n - m + 1) / 2^m", as_poly(e.data["value"]) if e else None, _td(n - m + 1, two_m), "2.7.4")
-  e = last_assign(w, "variance")
-  cmp_terms(ctx, R, f.where, "variance = n (1/2^m - (2m - 1)/2^(2m))", as_poly(e.data["value"]) if e else None,
-            n * (_td(_c(1), two_m) - _td(m * 2 - 1, sym.mk("pow", _c(2), m * 2))), "2.7.4")
-  e = last_assign(w, "p_value", in_loop=True)
-  if e is not None:
-    obs = as_poly(e.state.env.get("obs"))
-    cmp_terms(ctx, R, f.where, "p = igamc(N/2, chi2/2)", as_poly(e.data["value"]), igamc(_td(sym.mk("len", P("param", "blocks")), _c(2)), _td(obs, _c(2))), "2.7.4")
-  # ---- UniversalDistribution
+  mean = _td(n - m + 1, two_m)
+  var = n * (_td(_c(1), two_m) - _td(m * 2 - 1, sym.mk("pow", _c(2), m * 2)))
+  sk = sinks(w)
+  if not sk:
+    ctx.record(R, f.where, "p = igamc(N/2, chi2/2)", None, "no (label, p-value) is appended")
+  for lab, pv, e in sk[:1]:
+    Ws = [a for a in pv.all_atoms() if a.kind == "idx" and "FrequencyCount" in repr(a.args[0]) and any(x.kind in ("bv", "cbv") for x in Poly.atom(a).all_atoms())]
+    if not Ws:
+      ctx.record(R, f.where, "p = igamc(N/2, chi2/2)", False, "the statistic does not count template occurrences per block")
+      continue
+    Wt = Poly.atom(Ws[0])
+    bvs = [x for x in Wt.all_atoms() if x.kind == "bv"]
+    chi = sym.mk("sum", Poly.atom(Atom("map", _td((Wt - mean) ** 2, var), bvs[0], blocks)))
+    cmp_terms(ctx, R, f.where, "p = igamc(N/2, sum (W - mean)^2 / variance / 2), mean = (n-m+1)/2^m, variance = n(1/2^m - (2m-1)/2^(2m))", pv,
+              igamc(_td(sym.mk("len", blocks), _c(2)), _td(chi, _c(2))), "2.7.4")
+  # ---- UniversalDistribution: (expected value, c * sqrt(variance / K)) from the same table row
   f = repo.func(MOD, "UniversalDistribution")
   w = sym.Walker(repo, f)
   w.run()
   L, K = P("param", "block_size"), P("param", "k")
-  e = last_assign(w, "c")
-  want = _fl("0.7") - _td(_fl("0.8"), L) + (_c(4) + _td(_c(32), L)) * _td(sym.mk("pow", K, _td(_c(-3), L)), _c(15))
-  cmp_terms(ctx, R, f.where, "c = 0.7 - 0.8/L + (4 + 32/L) K^(-3/L) / 15", as_poly(e.data["value"]) if e else None, want, "2.9.4")
-  e = last_assign(w, "std")
-  if e is not None:
-    cv = as_poly(e.state.env.get("c"))
-    var = as_poly(e.state.env.get("variance"))
-    cmp_terms(ctx, R, f.where, "sigma = c sqrt(variance / K)", as_poly(e.data["value"]), cv * sqrt(_td(var, K)), "2.9.4")
-  # ---- Serial
+  cwant = _fl("0.7") - _td(_fl("0.8"), L) + (_c(4) + _td(_c(32), L)) * _td(sym.mk("pow", K, _td(_c(-3), L)), _c(15))
+  rets = [(k_, v_, s_) for k_, v_, s_ in w.terminals if k_ == "return" and isinstance(v_, Seq) and len(v_.items) == 2]
+  if not rets:
+    ctx.record(R, f.where, "sigma = c sqrt(variance / K)", None, "no (expected value, sigma) pair is returned")
+  for k_, v_, s_ in rets[:1]:
+    ev_, sd = as_poly(v_.items[0]), as_poly(v_.items[1])
+    ea = ev_.as_atom()
+    row = ea.args[0] if ea is not None and ea.kind == "idx" and as_poly(ea.args[1]).as_int() == 0 else None
+    if row is None:
+      ctx.record(R, f.where, "sigma = c sqrt(variance / K)", False, "the expected value is not the first entry of a table row")
+    else:
+      variance = sym.mk("idx", row, _c(1))
+      cmp_terms(ctx, R, f.where, "sigma = c sqrt(variance / K), c = 0.7 - 0.8/L + (4 + 32/L) K^(-3/L) / 15", sd, cwant * sqrt(_td(variance, K)), "2.9.4")
+      ra = as_poly(row).as_atom()
+      ctx.record(R, f.where, "table row selected by the block size", ra is not None and ra.kind == "idx" and as_poly(ra.args[1]) == L, "expected value and variance of L = block_size")
+  # ---- Serial: p1, p2 from psi^2_m, psi^2_{m-1}, psi^2_{m-2}
   f = repo.func(MOD, "Serial")
   w = sym.Walker(repo, f)
   w.run()
-  n_chk = 0
+  for tag, want_f, txt in (("p-value1", lambda v, mm: igamc(sym.mk("pow", _c(2), mm - 2), _td(v(mm) - v(mm - 1), _c(2))), "p1 = igamc(2^(m-2), (psi_m - psi_{m-1}) / 2)"),
+                           ("p-value2", lambda v, mm: igamc(sym.mk("pow", _c(2), mm - 3), _td(v(mm) - v(mm - 1) * 2 + v(mm - 2), _c(2))), "p2 = igamc(2^(m-3), (psi_m - 2 psi_{m-1} + psi_{m-2}) / 2)")):
+    sk = sinks(w, tag)
+    if not sk:
+      ctx.record(R, f.where, txt, None, "no `%s` is appended" % tag)
+      continue
+    lab, pv, e = sk[0]
+    mm = label_value(lab)
+    vs = indexed_syms(pv)
+    if mm is None or len(vs) != 1:
+      ctx.record(R, f.where, txt, False, "p-value is not a function of one psi^2 list and the m of its label")
+      continue
+    cmp_terms(ctx, R, f.where, txt, pv, want_f(lambda j: sym.mk("idx", vs[0], j), mm), "2.11.4")
+  psi_ok = None
   for e in w.events:
-    if e.kind == "assign" and e.data["name"] in ("p_value1", "p_value2") and e.state.tags:
-      mm = as_poly(e.state.env.get("m"))
-      v = as_poly(e.state.env.get("v"))
-      vi = lambda j: sym.mk("idx", v, j)
-      if e.data["name"] == "p_value1":
-        want = igamc(sym.mk("pow", _c(2), mm - 2), _td(vi(mm) - vi(mm - 1), _c(2)))
-        txt = "p1 = igamc(2^(m-2), (psi_m - psi_{m-1}) / 2)"
-      else:
-        want = igamc(sym.mk("pow", _c(2), mm - 3), _td(vi(mm) - vi(mm - 1) * 2 + vi(mm - 2), _c(2)))
-        txt = "p2 = igamc(2^(m-3), (psi_m - 2 psi_{m-1} + psi_{m-2}) / 2)"
-      if n_chk < 2:
-        cmp_terms(ctx, R, f.where, txt, as_poly(e.data["value"]), want, "2.11.4")
-      n_chk += 1
-  st = [e for e in w.events if e.kind == "store" and isinstance(e.data["target"].value, ast.Name) and e.data["target"].value.id == "v"]
-  if st:
-    e = st[0]
-    mm = as_poly(e.data["index"])
-    cnt = as_poly(e.state.env.get("count"))
-    bv = Atom("bv", "s3")
-    sumc = sym.mk("sum", Poly.atom(Atom("map", sym.mk("idx", cnt, Poly.atom(bv)) ** 2, bv, cnt)))
-    cmp_terms(ctx, R, f.where, "psi^2_m = (2^m / n) sum c^2 - n", as_poly(e.data["value"]), _td(sumc * sym.mk("pow", _c(2), mm), n) - n, "2.11.4")
+    if e.kind == "store" and not isinstance(e.data["value"], (Seq, Const, tuple)) and "sum" in repr(as_poly(e.data["value"])):
+      val = as_poly(e.data["value"])
+      mm = as_poly(e.data["index"])
+      srcs = [a for a in val.all_atoms() if a.kind == "sum"]
+      src = as_poly(srcs[0].args[0]).as_atom() if srcs else None
+      if src is None or src.kind != "map":
+        continue
+      cnt = as_poly(src.args[2])
+      bv = Atom("bv", "s3")
+      sumc = sym.mk("sum", Poly.atom(Atom("map", sym.mk("idx", cnt, Poly.atom(bv)) ** 2, bv, cnt)))
+      ok_, d_ = ratfun.equal_terms(val, _td(sumc * sym.mk("pow", _c(2), mm), n) - n)
+      fc_ok = "FrequencyCount" in repr(cnt) or cnt.as_atom() is not None
+      psi_ok = (ok_, d_)
+      break
+  ctx.record(R, f.where, "psi^2_m = (2^m / n) sum c^2 - n", None if psi_ok is None else psi_ok[0], "2.11.4" if psi_ok and psi_ok[0] else
+             ("no psi^2 store found" if psi_ok is None else "differs from the SP 800-22 formula (2.11.4): %s" % psi_ok[1]))
   # ---- ApproximateEntropy
   f = repo.func(MOD, "ApproximateEntropy")
   w = sym.Walker(repo, f)
   w.run()
-  done = False
-  for e in w.events:
-    if e.kind == "assign" and e.data["name"] == "p_value" and e.state.tags and not done:
-      done = True
-      mm = as_poly(e.state.env.get("m"))
-      phi = as_poly(e.state.env.get("phi"))
-      ap = sym.mk("idx", phi, mm) - sym.mk("idx", phi, mm + 1)
-      chi = n * 2 * (sym.mk("math.log", _c(2)) - ap)
-      cmp_terms(ctx, R, f.where, "p = igamc(2^(m-1), n (ln 2 - ApEn(m)))", as_poly(e.data["value"]), igamc(sym.mk("pow", _c(2), mm - 1), _td(chi, _c(2))), "2.12.4")
+  sk = sinks(w)
+  if not sk:
+    ctx.record(R, f.where, "p = igamc(2^(m-1), n (ln 2 - ApEn(m)))", None, "no (label, p-value) is appended")
+  for lab, pv, e in sk[:1]:
+    mm = label_value(lab)
+    ph = indexed_syms(pv)
+    if mm is None or len(ph) != 1:
+      ctx.record(R, f.where, "p = igamc(2^(m-1), n (ln 2 - ApEn(m)))", False, "p-value is not a function of one phi list and the m of its label")
+      continue
+    ap = sym.mk("idx", ph[0], mm) - sym.mk("idx", ph[0], mm + 1)
+    chi = n * 2 * (sym.mk("math.log", _c(2)) - ap)
+    cmp_terms(ctx, R, f.where, "p = igamc(2^(m-1), n (ln 2 - ApEn(m)))", pv, igamc(sym.mk("pow", _c(2), mm - 1), _td(chi, _c(2))), "2.12.4")
   # ---- CumulativeSumsPValue
   f = repo.func(MOD, "CumulativeSumsPValue")
   w = sym.Walker(repo, f)
@@ -875,25 +932,45 @@ def rule_formula(ctx):
   if len(loops) != 2:
     ctx.record(R, f.where, "two series", None, "expected two summation loops, found %d" % len(loops))
   else:
+    chain = []       # (pre value, exit value) of the accumulator of each series
     for info, (mink, maxk, term, txt) in zip(loops, specs):
       node = info["node"]
       probs = []
       for vis in info.get("visits", []):
         head, pre = vis["head"], vis["pre"]
+        paths = [bp for bp in info["body_paths"] if bp[4] is vis]
+        # roles from the data flow of one pass: the accumulator grows by the series term, the index (while form) by 1
+        kvar = accv = None
         if isinstance(node, ast.While):
-          kh = as_poly(head.env.get("k"))
-          k0 = as_poly(pre.env.get("k"))
-          ok0, _ = ratfun.equal_terms(k0, sym.mk("math.ceil", mink))
+          for nm in info["modified"]:
+            hv = head.env.get(nm)
+            if hv is None or isinstance(hv, (Seq, Const, tuple)) or not paths:
+              continue
+            d = [as_poly(bp[2].env[nm]) - as_poly(hv) for bp in paths if not isinstance(bp[2].env.get(nm), (Seq, Const, tuple)) and bp[2].env.get(nm) is not None]
+            if d and all((x - 1).is_zero() for x in d):
+              kvar = nm
+          if kvar is None:
+            probs.append("no summation index advanced by 1")
+            continue
+          kh = as_poly(head.env[kvar])
+          k0 = as_poly(vis["pre_env"][kvar]) if vis["pre_env"].get(kvar) is not None else None
+          ok0 = k0 is not None and ratfun.equal_terms(k0, sym.mk("math.ceil", mink))[0]
           if not ok0:
             probs.append("summation does not start at ceil(mink)")
           c = w.cond(node.test, head)
-          mk_ = as_poly(head.env.get("maxk"))
-          okm, _ = ratfun.equal_terms(mk_, maxk)
-          if not okm:
+          # the bound: the other operand of the loop condition
+          mk_ = None
+          for a_ in sym.cond_atoms(c):
+            if a_[0] == "cmp" and not isinstance(a_[2], Seq) and not isinstance(a_[3], Seq):
+              for x_, y_ in ((a_[2], a_[3]), (a_[3], a_[2])):
+                if as_poly(x_) == kh:
+                  mk_ = as_poly(y_)
+          if mk_ is None or not ratfun.equal_terms(mk_, maxk)[0]:
             probs.append("upper limit is not (n/z - 1)/4")
-          okc, dc = regions.equivalent_dnf([[(c, True)]], lambda v: v[kh] <= v[mk_], main=kh, extra_atoms=[mk_.as_atom()] if mk_.as_atom() is not None else [])
-          if not okc:
-            probs.append("loop does not run while k <= maxk (the last term k = maxk is part of the series): %s" % dc)
+          else:
+            okc, dc = regions.equivalent_dnf([[(c, True)]], lambda v: v[kh] <= v[mk_], main=kh, extra_atoms=[mk_.as_atom()] if mk_.as_atom() is not None else [])
+            if not okc:
+              probs.append("loop does not run while k <= maxk (the last term k = maxk is part of the series): %s" % dc)
         else:
           it = as_poly(vis["iter"]).as_atom()
           kh = vis["k"]
@@ -908,58 +985,62 @@ def rule_formula(ctx):
               probs.append("summation does not start at ceil(mink)")
             if not okb:
               probs.append("range stops at %r: the series runs up to and including floor(maxk), i.e. stop = floor((n/z - 1)/4) + 1" % (b0,))
-        for kind, val, s, since, v2 in info["body_paths"]:
-          if v2 is not vis:
+        for nm in info["modified"]:
+          hv = head.env.get(nm)
+          if nm == kvar or hv is None or isinstance(hv, (Seq, Const, tuple)) or not paths:
             continue
-          r0 = as_poly(head.env.get("res"))
-          r1 = as_poly(s.env.get("res"))
-          okt, dt = ratfun.equal_terms(r1 - r0, term(kh))
-          if not okt:
-            probs.append("series term differs: %s" % dt)
-          if isinstance(node, ast.While):
-            k1 = as_poly(s.env.get("k"))
-            if not (k1 - kh - 1).is_zero():
-              probs.append("k is not advanced by 1")
+          ds = [as_poly(bp[2].env[nm]) - as_poly(hv) for bp in paths if not isinstance(bp[2].env.get(nm), (Seq, Const, tuple)) and bp[2].env.get(nm) is not None]
+          if ds and all(ratfun.equal_terms(x, term(kh))[0] for x in ds):
+            accv = nm
+        if accv is None:
+          probs.append("no accumulator grows by the series term on every pass")
+        else:
+          chain.append((vis["pre_env"].get(accv), vis["after_env"].get(accv)))
       ctx.record(R, f.where, txt[:60], not probs, "; ".join(sorted(set(probs))) or txt)
-  ret = [e for e in w.events if e.kind == "return" and e.node is not None]
-  if ret:
-    res = as_poly(ret[0].state.env.get("res"))
-    cmp_terms(ctx, R, f.where, "p = 1 + (series1 + series2) / 2  [erf form of 2.13.4]", as_poly(ret[0].data["value"]), _c(1) + _td(res, _c(2)), "2.13.4")
-  e = last_assign(w, "t", in_loop=False)
-  cmp_terms(ctx, R, f.where, "t = z / sqrt(2n)", as_poly(e.data["value"]) if e else None, t, "Phi(x) = (1 + erf(x / sqrt 2)) / 2")
-  # ---- RandomWalk: excursion statistics
+    ret = [t_ for t_ in w.terminals if t_[0] == "return" and not isinstance(t_[1], (Seq, Const, tuple))]
+    okr = len(chain) == 2 and bool(ret)
+    if okr:
+      (p1, a1), (p2, a2) = chain
+      zero1 = (isinstance(p1, Const) and isinstance(p1.v, (int, float)) and p1.v == 0) or (isinstance(p1, Poly) and p1.is_zero())
+      okr = zero1 and p2 is not None and a1 is not None and as_poly(p2) == as_poly(a1) and a2 is not None and \
+          ratfun.equal_terms(as_poly(ret[0][1]), _c(1) + _td(as_poly(a2), _c(2)))[0]
+    ctx.record(R, f.where, "p = 1 + (series1 + series2) / 2  [erf form of 2.13.4]", okr, "one accumulator: starts at 0, carries series 1 into series 2, p = 1 + total / 2, with t = z / sqrt(2n) inlined in every term" if okr else
+               "the two series are not accumulated from 0 into p = 1 + total / 2")
+  # ---- RandomWalk: excursion statistics (at the sinks)
   f = repo.func(MOD, "RandomWalk")
   w = sym.Walker(repo, f)
   w.run()
-  done = set()
-  for e in w.events:
-    if e.kind == "assign" and e.data["name"] == "obs" and e.state.tags:
-      v = as_poly(e.data["value"])
-      env = e.state.env
-      J = as_poly(env.get("excursions"))
-      if "math.sqrt" in repr(v) and "variant" not in done:
-        done.add("variant")
-        x = as_poly(env.get("x"))
-        tc = as_poly(env.get("total_cnt"))
-        want = _td(sym.mk("abs", J - sym.mk("idx", tc, x)), sqrt(J * 2 * (sym.mk("abs", x) * 4 - 2)))
-        cmp_terms(ctx, R, f.where, "variant: |J - xi(x)| / sqrt(2J(4|x| - 2))", v, want, "2.15.4")
-      elif "math.sqrt" not in repr(v) and "excursion" not in done:
-        done.add("excursion")
-        vv = as_poly(env.get("v"))
-        pi = as_poly(env.get("pi"))
-        mc = P("param", "max_cnt")
-        bv = Atom("bv", "s4")
-        rng = sym.mk("range", mc + 1)
-        k_ = Poly.atom(bv)
-        elt = _td((sym.mk("idx", vv, k_) - J * sym.mk("idx", pi, k_)) ** 2, J * sym.mk("idx", pi, k_))
-        want = sym.mk("sum", Poly.atom(Atom("map", elt, bv, rng)))
-        cmp_terms(ctx, R, f.where, "excursions: chi2 = sum_k (v_k - J pi_k)^2 / (J pi_k)", v, want, "2.14.4")
-  for e in w.events:
-    if e.kind == "assign" and e.data["name"] in ("max_dist_forward", "max_dist_backward"):
-      env = e.state.env
-      mx, mn, s_ = as_poly(env.get("maxs")), as_poly(env.get("mins")), as_poly(env.get("s"))
-      want = sym.mk("max", mx, -mn) if e.data["name"].endswith("forward") else sym.mk("max", mx - s_, s_ - mn)
-      cmp_terms(ctx, R, f.where, e.data["name"], as_poly(e.data["value"]), want, "2.13.4 z = max |S_k| resp. max |S_n - S_k|")
+  mc = P("param", "max_cnt")
+  for tag, txt in (("random excursions variant ", "variant: p = erfc(|J - xi(x)| / sqrt(2J(4|x| - 2)))"), ("random excursions ", "excursions: p = igamc(max_cnt/2, sum_k (v_k - J pi_k)^2 / (J pi_k) / 2)")):
+    sk = [x_ for x_ in sinks(w, tag) if tag.strip().endswith("variant") or "variant" not in repr(x_[0])]
+    if not sk:
+      ctx.record(R, f.where, txt[:40], None, "no `%s` p-value is appended" % tag.strip())
+      continue
+    lab, pv, e = sk[0]
+    x = label_value(lab)
+    lens = [a for a in pv.all_atoms() if a.kind == "len"]
+    if x is None or not lens:
+      ctx.record(R, f.where, txt[:40], False, "p-value does not depend on the state of its label and the number of excursions")
+      continue
+    J = Poly.atom(lens[0])
+    if tag.strip().endswith("variant"):
+      tcs = indexed_syms(pv)
+      if len(tcs) != 1:
+        ctx.record(R, f.where, txt[:40], False, "p-value does not read one visit-count table")
+        continue
+      want = erfc(_td(sym.mk("abs", J - sym.mk("idx", tcs[0], x)), sqrt(J * 2 * (sym.mk("abs", x) * 4 - 2))))
+      cmp_terms(ctx, R, f.where, txt, pv, want, "2.15.4")
+    else:
+      vs = indexed_syms(pv)
+      if len(vs) != 1:
+        ctx.record(R, f.where, txt[:40], False, "p-value does not read one class-count list")
+        continue
+      pi = _call(MOD + ":RandomExcursionsDistribution", x, mc)
+      bv = Atom("bv", "s4")
+      k_ = Poly.atom(bv)
+      elt = _td((sym.mk("idx", vs[0], k_) - J * sym.mk("idx", pi, k_)) ** 2, J * sym.mk("idx", pi, k_))
+      chi = sym.mk("sum", Poly.atom(Atom("map", elt, bv, sym.mk("range", mc + 1))))
+      cmp_terms(ctx, R, f.where, txt, pv, igamc(_td(mc, _c(2)), _td(chi, _c(2))), "2.14.4")
 
 
 # ------------------------------------------------------------------ PURE: a p-value is a function of the bit string and the parameters only
